@@ -29,6 +29,7 @@ LOOP = {"quick": 70000, "thorough": 1000000}
 CLI = {"quick": 112, "thorough": 1500}
 FORKS = {"quick": 280, "thorough": 3000}
 REBUILD = {"quick": 1400, "thorough": 14000}
+ENVN = {"quick": 1400, "thorough": 14000}
 FROZEN = {"quick": 7000, "thorough": 28000}
 KEY = hashlib.sha256(b"C14 shared firmware key").digest()
 KNAME = "c14_key"
@@ -182,6 +183,80 @@ def hist_frozen(rec, keysdir, n, events):
         (_t.time, _t.time_ns, _t.monotonic, _t.monotonic_ns, _t.perf_counter, _t.perf_counter_ns, os.getpid) = saved
 
 
+ENV_PROFILES = {
+    # what a reproducible-build environment typically exports (https://reproducible-builds.org/docs/source-date-epoch/)
+    "reproducible-build": {"SOURCE_DATE_EPOCH": "1758844800", "ZERO_AR_DATE": "1", "DETERMINISTIC_BUILD": "1",
+                           "REPRODUCIBLE_BUILD": "1", "CI": "true", "TZ": "UTC", "LC_ALL": "C.UTF-8", "LANG": "C",
+                           "USER": "build", "HOME": "/nonexistent", "BUILD_ID": "1", "SUIT_DETERMINISTIC": "1"},
+    "debug-and-test": {"DEBUG": "1", "TESTING": "1", "PYTEST_CURRENT_TEST": "x", "SUIT_DEBUG": "1", "NDEBUG": "1",
+                       "PYTHONDEVMODE": "", "SUIT_GENERATOR_TEST": "1", "ZEPHYR_BASE": "/nonexistent/zephyr"},
+}
+ENV_IGNORED = {"SUIT_GENERATOR_VERIF"}      # the guard of the logger hook itself
+
+
+def hist_env(rec, keysdir, n, events, shard):
+    """environment as part of the history: (1) the environment-read monitor observes which variables the encryption
+    path of the repository consults; (2) identical firmware is encrypted repeatedly under environment profiles - two
+    fixed ones and one per observed variable and value - in-process and through separate CLI invocations.  The verdict
+    is still only the IV collision / decryption check over the merged log."""
+    from ..mon import envreads
+    from .. import core
+    wd = rec.tmpdir()
+    fw = os.path.join(wd, "fw_env.bin")
+    with open(fw, "wb") as fh:
+        fh.write(PT)
+    out = os.path.join(wd, "envout")
+    os.makedirs(out, exist_ok=True)
+    with envreads.watch([core.REPO]) as seen:
+        for _ in range(3):
+            res, tc = encrypt_once(keysdir, PT)
+            record(rec, "environment:observed", res, tc, PT, events)
+        X.run_encrypt("cmd", fw, KNAME, 7, keysdir, out, "sha-256", wd)
+        X.run_encrypt("cli", fw, KNAME, 7, keysdir, out, "sha-256", wd)
+    rec.count("environment-monitor-runs")
+    names = sorted(k for k in seen if k not in ENV_IGNORED and k != "*")
+    for k in seen:
+        rec.count("environment-variable-consulted:" + k)
+    rec.extra["env_reads"] = {k: sorted(v)[:4] for k, v in seen.items()}
+    profiles = dict(ENV_PROFILES)
+    for k in names[:8]:
+        for v in ("1", "0", "true", "1758844800", "x"):
+            profiles[f"observed:{k}={v}"] = {k: v}
+    plist = sorted(profiles.items())
+    per = max(4, n // max(1, len(plist)))
+    for pi, (pname, values) in enumerate(plist):
+        kind = "environment:" + pname.split("=")[0]
+        with envreads.patched(values):
+            for i in range(per):
+                res, tc = encrypt_once(keysdir, PT)
+                record(rec, kind, res, tc, PT, events)
+            exc = X.run_encrypt("cmd", fw, KNAME, 7, keysdir, out, "sha-256", wd)
+            if exc is None:
+                with open(os.path.join(out, "suit_encryption_info.bin"), "rb") as fh:
+                    res = X.parse_info(fh.read())
+                with open(os.path.join(out, "encrypted_content.bin"), "rb") as fh:
+                    tc = fh.read()
+                record(rec, kind, res, tc, PT, events)
+            else:
+                rec.count("environment-profile-refused:" + pname)
+        # separate real invocations under the profile (two per profile on a rotating subset of shards)
+        if pname == "reproducible-build" or pi % 7 == shard % 7:
+            for _ in range(1 if pname == "reproducible-build" else 2):
+                argv = ["encrypt", "encrypt-and-generate", "--firmware", fw, "--key-name", KNAME, "--key-id", "7",
+                        "--context", keysdir, "--output-dir", out, "--hash-alg", "sha-256", "--kms-script",
+                        X.KMS_SCRIPT, "--encrypt-script", X.ENCRYPT_SCRIPT]
+                rc, err = drive.cli_sub(argv, wd, env_extra=values)
+                if rc != 0:
+                    rec.count("environment-profile-refused:" + pname)
+                    continue
+                with open(os.path.join(out, "suit_encryption_info.bin"), "rb") as fh:
+                    res = X.parse_info(fh.read())
+                with open(os.path.join(out, "encrypted_content.bin"), "rb") as fh:
+                    tc = fh.read()
+                record(rec, "environment-cli:" + pname.split("=")[0], res, tc, PT, events)
+    shutil.rmtree(out, ignore_errors=True)
+
+
 def run_shard(rec, shard, nshards):
     keysdir = os.path.join(rec.tmpdir(), "k")
     X.make_key(keysdir, KNAME, KEY)
@@ -191,6 +266,7 @@ def run_shard(rec, shard, nshards):
     hist_fork(rec, keysdir, FORKS[rec.tier] // nshards, events)
     hist_cli(rec, keysdir, CLI[rec.tier] // nshards, events)
     hist_rebuild(rec, keysdir, REBUILD[rec.tier] // nshards, events)
+    hist_env(rec, keysdir, ENVN[rec.tier] // nshards, events, shard)
     hist_loop(rec, keysdir, LOOP[rec.tier] // nshards, events)
     rec.extra["ivs"] = events
     if events:
@@ -221,12 +297,20 @@ def finish(merged, tier, seed):
             "shard": -1})
     cnt = merged["counters"]
     for k in ("events:loop-same-plaintext", "events:separate-cli-invocations", "events:fork-child",
-              "events:frozen-clock-and-pid", "events:rebuild-into-same-directory"):
+              "events:frozen-clock-and-pid", "events:rebuild-into-same-directory",
+              "events:environment:reproducible-build", "events:environment-cli:reproducible-build"):
         if cnt.get(k, 0) < 10:
             merged["inconclusive"].append(f"history {k} has fewer than 10 events")
     # informational only: bit statistics of the observed IVs (never a verdict)
     ones = sum(bin(int(iv, 16)).count("1") for iv in allivs)
-    return {"encryptions_observed": len(allivs), "distinct_ivs": len(seen), "iv_collisions": dups,
+    reads = {}
+    for d in merged["extra"].get("env_reads", []):
+        for k, v in d.items():
+            reads.setdefault(k, set()).update(v)
+    if cnt.get("environment-monitor-runs", 0) < 1:
+        merged["inconclusive"].append("the environment-read monitor never ran")
+    return {"environment_variables_consulted_by_the_encryption_path": {k: sorted(v)[:4] for k, v in reads.items()},
+            "encryptions_observed": len(allivs), "distinct_ivs": len(seen), "iv_collisions": dups,
             "info_mean_one_bits_per_96": round(ones / max(1, len(allivs)), 2),
             "histories": {k[7:]: v for k, v in cnt.items() if k.startswith("events:")}}
 
@@ -258,5 +342,20 @@ def canaries(rec):
     c.update(mcbor.enc(["Encrypt", bytes.fromhex("a10103"), b""]))
     ct, tag = c.encrypt_and_digest(PT)
     out.append(("right IV decrypts", X.decrypt(KEY, iv, bytes.fromhex("a10103"), tag + ct) == PT))
+    # environment-read monitor: direct reads by code under the watched root are seen, in all three spellings; reads by
+    # other code are not attributed
+    from ..mon import envreads
+    root = os.path.join(rec.tmpdir(), "fakerepo")
+    os.makedirs(root, exist_ok=True)
+    src = os.path.join(root, "reader.py")
+    with open(src, "w") as fh:
+        fh.write("import os\nfrom os import environ\n\ndef f():\n    a = os.environ.get('CANARY_A')\n"
+                 "    b = os.getenv('CANARY_B')\n    c = 'CANARY_C' in environ\n    return a, b, c\n")
+    mod = X.load_module(src, "verif_env_canary")
+    with envreads.watch([root]) as seen:
+        mod.f()
+        os.environ.get("CANARY_D")
+    out.append(("environment reads of watched code are seen", {"CANARY_A", "CANARY_B", "CANARY_C"} <= set(seen)))
+    out.append(("environment reads of other code are not attributed", "CANARY_D" not in seen))
     out.append(("wrong published IV noticed", X.decrypt(KEY, os.urandom(12), bytes.fromhex("a10103"), tag + ct) is None))
     return out
